@@ -11,7 +11,9 @@ set_option linter.unusedSectionVars false
 
 /-- **The published relation of one opening** (Ligero / Brakedown with the code's transcript):
 `v` (and the well-formedness vector, when required) has `n_cols` entries and its encoding `E(v)` has
-exactly the `n_ext_cols` entries the commitment announces; every opened column comes
+exactly the `n_ext_cols` entries the commitment announces; the point has the number of coordinates
+the announced shape asks for — the vectors `(a, b) = tensor(point)` have `n_cols` and `n_rows` entries
+(fix D23); every opened column comes
 with a Merkle path at the transcript's position that recomputes the committed root from the column's
 hash; every opened column is consistent with the encoding of `v` under `b` — and with the encoding of
 the well-formedness vector under the squeezed coefficients `r` — at the transcript's position
@@ -82,17 +84,19 @@ theorem lincode_not_relation_iff (pp : Params F D) (point : Point F) (cs : List 
   | error e => simp
   | ok b => cases b <;> simp
 
-/-- honest proofs satisfy the relation (C01) -/
+/-- honest proofs satisfy the relation (C01), at a point with the right number of coordinates (`ha`,
+`hb`; since fix D23 the lengths of the `tensor` vectors are part of the relation) -/
 theorem lincode_honest_in_relation (pp : Params F D) (point : Point F) (coeffs : List F)
     (E : List F → List F) (k : Nat) (h : Encodes pp coeffs E k) (a b : List F) (o : Oracle F)
     (ht : tensor point (coeffMat pp.dims coeffs).m (coeffMat pp.dims coeffs).n = .ok (a, b))
+    (ha : a.length = (coeffMat pp.dims coeffs).m) (hb : b.length = (coeffMat pp.dims coeffs).n)
     (hi : ∀ i ∈ o.indices, i < k) :
     LinCodeRelation pp point
       ⟨(coeffMat pp.dims coeffs).n, (coeffMat pp.dims coeffs).m, k,
         merkleRoot pp.hs (leavesOf pp (extOf pp coeffs E k))⟩
       (dot (vecMat b (coeffMat pp.dims coeffs).rows (coeffMat pp.dims coeffs).m) a)
       (honestProof pp coeffs E k b o) o :=
-  ⟨a, honest_preRelation pp point coeffs E k h a b o ht hi, rfl⟩
+  ⟨a, honest_preRelation pp point coeffs E k h a b o ht ha hb hi, rfl⟩
 
 /-- every opened column influences the decision: replacing one by a column with a different
 `b`-combination leaves the relation -/
@@ -103,8 +107,8 @@ theorem lincode_column_matters (pp : Params F D) (point : Point F) (c : Comm D) 
     (hc : π.opening.columns[j]? = some col) (hne : dot b col' ≠ dot b col) :
     ¬ LinCodeRelation pp point c value
       { π with opening := { π.opening with columns := π.opening.columns.set j col' } } o := by
-  obtain ⟨a1, ⟨_, _, _, w, b1, hw, _, ht1, hcols, _⟩, _⟩ := h
-  rintro ⟨a2, ⟨_, _, _, w2, b2, hw2, _, ht2, hcols2, _⟩, _⟩
+  obtain ⟨a1, ⟨_, _, _, w, b1, hw, _, ht1, _, _, hcols, _⟩, _⟩ := h
+  rintro ⟨a2, ⟨_, _, _, w2, b2, hw2, _, ht2, _, _, hcols2, _⟩, _⟩
   simp only at hw2 ht2 hcols2
   rw [ht] at ht1 ht2; cases ht1; cases ht2
   rw [hw] at hw2; cases hw2
@@ -149,7 +153,7 @@ example : LinCodeRelation (toyPP true) (.uni 5)
     (honestProof (toyPP true) [1, 2, 3] toyE 4 (tensorUni (5 : K) 2 2).2 ⟨[7, 9], [2, 0, 3]⟩)
     ⟨[7, 9], [2, 0, 3]⟩ :=
   lincode_honest_in_relation (toyPP true) (.uni 5) [1, 2, 3] toyE 4 (toy_encodes _ _ (by decide)) _ _ _ rfl
-    (by decide)
+    (by decide) (by decide) (by decide)
 example : toyRun true (.uni 5) [1, 2, 3] ⟨[7, 9], [2, 0, 3]⟩ (evalPoly [1, 2, 3] 5) = .ok true := by
   decide
 example : toyRun true (.uni 5) [1, 2, 3] ⟨[7, 9], [2, 0, 3]⟩ 0 = .ok false := by decide
